@@ -216,9 +216,12 @@ class MVCCAdapterInstance(Base):
 
     def tpc_finish(self, transaction, func=lambda tid: None):
         modified = self._modified
-        self._modified = None
 
         def invalidate_finish(tid):
+            # (Only now is it certain that the storage accepts the call: it
+            # refuses another transaction than the one in progress, which
+            # must then go on as if nothing had happened.)
+            self._modified = None
             self._base._invalidate_finish(tid, modified, self)
             self._ltid = tid
             func(tid)
